@@ -45,7 +45,8 @@ static void vlogf (int tid, const char *fmt, va_list ap) {
 	line[n++] = '\n';
 	log_append (line, n);
 }
-void vf_log (const char *fmt, ...) { va_list ap; va_start (ap, fmt); vlogf (vf_self (), fmt, ap); va_end (ap); }
+/* set-up code that runs before the fibers start is logged as thread 99 */
+void vf_log (const char *fmt, ...) { va_list ap; va_start (ap, fmt); vlogf (vf_self () < 0 ? 99 : vf_self (), fmt, ap); va_end (ap); }
 void vf_log_env (const char *fmt, ...) { va_list ap; va_start (ap, fmt); vlogf (-1, fmt, ap); va_end (ap); }
 void vf_flush_log (FILE *out) { if (loglen) { fwrite (logbuf, 1, loglen, out); } fflush (out); }
 
